@@ -153,8 +153,17 @@ func (d *typeDictionary) resolveTypedefs() []error {
 func (t *Typedef) resolve(d *typeDictionary) []error {
 	// If we have no parent we are a base type and
 	// are already resolved.
-	if t.Parent == nil || t.YangType != nil {
+	if t.Parent == nil {
 		return nil
+	}
+	if t.YangType != nil {
+		if t.resolvedIn == d.run {
+			return nil
+		}
+		// Resolved in an earlier run of Process: what the names in
+		// it denote may have changed since (a later revision of an
+		// imported module may have been loaded).
+		t.YangType = nil
 	}
 	if t.resolving {
 		return []error{fmt.Errorf("%s: typedef %s has a circular dependency", Source(t), t.Name)}
@@ -200,6 +209,7 @@ func (t *Typedef) resolve(d *typeDictionary) []error {
 		y.Root = &y
 	}
 	t.YangType = &y
+	t.resolvedIn = d.run
 	return nil
 }
 
@@ -207,12 +217,13 @@ func (t *Typedef) resolve(d *typeDictionary) []error {
 // cannot be resolved then one or more errors are returned.
 func (t *Type) resolve(d *typeDictionary) (errs []error) {
 	if t.YangType != nil {
-		if len(t.resolveErrs) == 0 {
+		if len(t.resolveErrs) == 0 && t.resolvedIn == d.run {
 			return nil
 		}
-		// The previous attempt found errors. Resolve again, so that an
-		// unchanged situation reports them again (e.g. on a second call
-		// of Process) and a changed one (a missing module has been
+		// The previous attempt found errors, or was made in an earlier
+		// run of Process. Resolve again, so that an unchanged situation
+		// gives the same again (e.g. on a second call of Process) and a
+		// changed one (a missing module or a later revision has been
 		// loaded since) gets its chance.
 		t.YangType = nil
 		t.resolveErrs = nil
@@ -220,6 +231,7 @@ func (t *Type) resolve(d *typeDictionary) (errs []error) {
 	defer func() {
 		if t.YangType != nil {
 			t.resolveErrs = errs
+			t.resolvedIn = d.run
 		}
 	}()
 
